@@ -271,5 +271,17 @@ func parseDuration(s *string, def time.Duration) (time.Duration, error) {
 	}
 
 	// Use the user's value, but validate it per the RFC.
-	return time.ParseDuration(*s)
+	d, err := time.ParseDuration(*s)
+	if err != nil {
+		return 0, err
+	}
+
+	// NDP lifetimes are carried in unsigned fields of at most 32 bits of
+	// seconds. Anything outside of that range would wrap around on the wire
+	// and be interpreted by clients as a completely different duration.
+	if d < 0 || d > ndp.Infinity {
+		return 0, fmt.Errorf("duration %s must be between 0 and %s", d, ndp.Infinity)
+	}
+
+	return d, nil
 }
